@@ -2,8 +2,8 @@
 import numpy as np
 
 from core import enc, q, J_equal
-from gen import SeqGen
-from props.c20 import seg_table, FN_PARAMS, _same_arrays
+from gen import SeqGen, arbify
+from props.c20 import seg_table, FN_PARAMS, _same_arrays, argval
 
 ID = "C09"
 UNIVERSAL_EVERY = 6      # every n-th case is a feature-rich random program (props/universal.py)
@@ -55,6 +55,7 @@ def case(g, tier, ci):
     N = r.randint(8, 20)
     # --- sources
     bops, info = g.blueprint("b", SR=SR, nseg=(2, 4), kinds=("ramp", "sine", "user"), waits=0.0, markers=True, total=N)
+    arbify(r, bops)        # maybe one arb_func segment: its keyword dict is handed on by copy() / + / addBluePrint as it is
     segs = seg_table(bops)
     names = [n for n, _ in segs]
     ops = bops + g.seg_marker_ops("b", names, info)
@@ -136,7 +137,7 @@ def case(g, tier, ci):
             nm, fk = r.choice(real)
             k = r.choice(["arg", "dur", "insert", "remove", "segmark", "rmsegmark", "assign", "append", "SR"])
             if k == "arg":
-                m = {"op": "bp.changeArg", "id": oid, "name": nm, "arg": enc(r.choice(FN_PARAMS[fk])), "value": enc(r.choice([0.375, -0.625, 1.0]))}
+                m = {"op": "bp.changeArg", "id": oid, "name": nm, **argval(r, fk)}
             elif k == "dur":
                 m = {"op": "bp.changeDur", "id": oid, "name": nm, "dur": enc(r.choice([3, 5, 7]) / SR)}
             elif k == "insert":
@@ -157,7 +158,7 @@ def case(g, tier, ci):
             nm, fk = r.choice(real)
             k = r.choice(["arg", "dur", "flags", "addbp"])
             if k == "arg":
-                m = {"op": "el.changeArg", "id": oid, "ch": 1, "name": nm, "arg": enc(r.choice(FN_PARAMS[fk])), "value": enc(r.choice([0.375, -0.625, 1.0]))}
+                m = {"op": "el.changeArg", "id": oid, "ch": 1, "name": nm, **argval(r, fk)}
             elif k == "dur":
                 m = {"op": "el.changeDur", "id": oid, "ch": 1, "name": nm, "dur": enc(r.choice([3, 5]) / SR)}
             elif k == "flags":
@@ -182,7 +183,7 @@ def case(g, tier, ci):
                 m = {"op": "sq.setSR", "id": oid, "v": enc(SR)}
             elif k == "elarg":
                 nm, fk = r.choice(real)
-                m = {"op": "sq.elChangeArg", "id": oid, "pos": 1, "ch": 1, "name": nm, "arg": enc(r.choice(FN_PARAMS[fk])), "value": enc(r.choice([0.375, -0.625]))}
+                m = {"op": "sq.elChangeArg", "id": oid, "pos": 1, "ch": 1, "name": nm, **argval(r, fk, (0.375, -0.625))}
             else:
                 m = {"op": "sq.setName", "id": oid, "name": "renamed"}
         m["_mut"] = oid
